@@ -2,6 +2,7 @@ package schemagen
 
 import (
 	"fmt"
+	"strings"
 )
 
 // Clone deep-copies a schema (resolved Ref pointers are re-pointed to the copies).
@@ -140,6 +141,63 @@ func Mutants(s *Schema, perOp int) []Mutant {
 				return true
 			})
 		}
+		// Go-name hazards: schemas that follow every stated rule of the language but whose names meet
+		// in the generated Go code. Either outcome is fine: an error naming the element, or code that builds.
+		hazards := st == limit(msgs)[0] // one site per schema is enough for the name hazards
+		if hazards && len(d0.Fields) >= 1 {
+			f0 := d0.Fields[0]
+			add("go-names:has-prefix-next-to-field", st, []string{"has_" + f0.Name, f0.Name}, func(c *Schema, d *Def) bool {
+				d.Fields = append(d.Fields, Field{"has_" + f0.Name, scalarT("bool"), 64010})
+				return true
+			})
+			add("go-names:field-names-meet-after-camel-casing", st, []string{f0.Name}, func(c *Schema, d *Def) bool {
+				d.Fields = append(d.Fields, Field{strings.ToUpper(f0.Name), scalarT("int32"), 64011})
+				return true
+			})
+		}
+		for i, nm := range []string{"clone", "unwrap", "is_empty", "clone_to_buffer"} {
+			if !hazards {
+				break
+			}
+			nm := nm
+			add("go-names:reader-helper-"+nm, st, []string{nm}, func(c *Schema, d *Def) bool {
+				d.Fields = append(d.Fields, Field{nm, scalarT("int32"), 64020 + i})
+				return true
+			})
+		}
+		for i, nm := range []string{"merge", "build", "end"} {
+			if !hazards {
+				break
+			}
+			nm := nm
+			add("go-names:writer-helper-"+nm, st, []string{nm}, func(c *Schema, d *Def) bool {
+				d.Fields = append(d.Fields, Field{nm, scalarT("string"), 64030 + i})
+				return true
+			})
+		}
+		if hazards {
+			add("go-names:copy-prefix-next-to-message-field", st, []string{"copy_inner", "inner"}, func(c *Schema, d *Def) bool {
+				d.Fields = append(d.Fields, Field{"inner", &Type{Kind: TRef, Name: d.Name}, 64060}, Field{"copy_inner", scalarT("bool"), 64061})
+				return true
+			})
+		}
+		if hazards {
+			add("go-names:odd-but-legal-names", st, []string{"_id", "name_", "first__last", "type", "func", "range"}, func(c *Schema, d *Def) bool {
+				d.Fields = append(d.Fields, Field{"_id", scalarT("int64"), 64040}, Field{"name_", scalarT("string"), 64041}, Field{"first__last", scalarT("bool"), 64042},
+					Field{"type", scalarT("int32"), 64050}, Field{"func", scalarT("string"), 64051}, Field{"range", scalarT("bool"), 64052}, Field{"go", scalarT("bool"), 64053}, Field{"map", scalarT("bool"), 64054})
+				return true
+			})
+		}
+		if hazards {
+			for _, kw := range []string{"func", "range"} {
+				kw := kw
+				add("go-names:definition-named-like-a-go-keyword", st, []string{kw}, func(c *Schema, d *Def) bool {
+					f := c.Pkgs[st.pi].Files[st.fi]
+					f.Defs = append(f.Defs, &Def{Kind: DMessage, Name: kw, Pkg: d.Pkg, Fields: []Field{{"only", scalarT("bool"), 1}}})
+					return true
+				})
+			}
+		}
 		add("duplicate-definition", st, nil, func(c *Schema, d *Def) bool {
 			f := c.Pkgs[st.pi].Files[len(c.Pkgs[st.pi].Files)-1]
 			f.Defs = append(f.Defs, &Def{Kind: DMessage, Name: d.Name, Pkg: d.Pkg, Fields: []Field{{"only", scalarT("bool"), 1}}})
@@ -172,6 +230,17 @@ func Mutants(s *Schema, perOp int) []Mutant {
 			d.Values = append(d.Values, EnumValue{"DUP_NUMBER", v0.Num})
 			return true
 		})
+		add("go-names:enum-values-meet-after-camel-casing", st, []string{v0.Name}, func(c *Schema, d *Def) bool {
+			alt := strings.ToLower(v0.Name)
+			if alt == v0.Name {
+				alt = strings.ToUpper(v0.Name)
+			}
+			if alt == v0.Name {
+				return false
+			}
+			d.Values = append(d.Values, EnumValue{alt, 777001})
+			return true
+		})
 		add("missing-zero-enum-value", st, nil, func(c *Schema, d *Def) bool {
 			var vs []EnumValue
 			for _, v := range d.Values {
@@ -192,6 +261,11 @@ func Mutants(s *Schema, perOp int) []Mutant {
 		})
 	}
 	for _, st := range limit(structs) {
+		add("empty-struct", st, []string{"EmptyStruct"}, func(c *Schema, d *Def) bool {
+			f := c.Pkgs[st.pi].Files[st.fi]
+			f.Defs = append(f.Defs, &Def{Kind: DStruct, Name: "EmptyStruct", Pkg: d.Pkg})
+			return true
+		})
 		add("self-recursive-struct", st, []string{"again"}, func(c *Schema, d *Def) bool {
 			d.Fields = append(d.Fields, Field{Name: "again", Type: &Type{Kind: TRef, Name: d.Name}})
 			return true
@@ -382,6 +456,11 @@ func Mutants(s *Schema, perOp int) []Mutant {
 		}
 		add("input-single-scalar", st, []string{"bad_input"}, func(c *Schema, d *Def) bool {
 			d.Methods = append(d.Methods, Method{Name: "bad_input", InType: scalarT("int32")})
+			return true
+		})
+		add("method-returns-a-service", st, []string{"bad_sub", d0.Name}, func(c *Schema, d *Def) bool {
+			// a plain service (not a subservice) as the result of a method
+			d.Methods = append(d.Methods, Method{Name: "bad_sub", HasOut: true, OutType: &Type{Kind: TRef, Name: d.Name}})
 			return true
 		})
 		add("subservice-with-channel-output", st, []string{"bad_sub"}, func(c *Schema, d *Def) bool {
